@@ -328,6 +328,8 @@ PLAIN = {"rm": [0], "maxpkt": [0], "maxqos": [2], "ska": [0], "assign_client_id"
 AGED = [("arena", {}, 10, 100), ("flow", {}, 6, 60), ("cancel", {}, 6, 60), ("faults", {}, 6, 60), ("limits", {}, 8, 80),
         ("arena", PLAIN, 10, 100), ("flow", PLAIN, 8, 80), ("cancel", PLAIN, 8, 80), ("faults", PLAIN, 8, 80),
         ("sessions", PLAIN, 8, 80),
+        # refused subscriptions / failing acknowledgements release their slot and bytes like granted ones (S-C17-h)
+        ("flow", dict(PLAIN, p_fail_ack=0.5, w_sub=6, w_unsub=3), 8, 80),
         ("arena", {"calls": 400}, 2, 20), ("arena", dict(PLAIN, calls=400), 2, 20),
         ("arena", {"calls": 3000, "max_conns": 40}, 0, 4), ("arena", dict(PLAIN, calls=3000, max_conns=40), 0, 4)]
 
